@@ -97,16 +97,13 @@ def bdm_factory(ns):
                         if d is None or not clock:
                             structural.append('default expiration is a canonical UTC time')
                         else:
-                            year = MC.ROOT_MD_EXPIRY_DISTANCE
-                            dist = (year.days * 86400 + year.seconds) * US + year.microseconds
-                            last = clock[-1]
-                            obs.append(oblige(eng, 'default expiration is one expiry distance after the current time (whole seconds)',
-                                              z3.Not(d.T == last - last % US + dist), mk))
                             if tsv is None:
                                 d0 = iso_text_parts(fs['timestamp'][1])
                                 if d0 is not None:
-                                    obs.append(oblige(eng, 'by default the metadata expires strictly after its timestamp, about one year later (at least 365 days)',
-                                                      z3.Not(z3.And(d.T > d0.T, d.T - d0.T >= 365 * 86400 * US)), mk))
+                                    skew = clock[-1] - clock[0]
+                                    obs.append(oblige(eng, 'by default the metadata expires strictly after its timestamp, about one year later (365 to 367 days, plus the time between the two clock readings)',
+                                                      z3.Not(z3.And(d.T > d0.T, d.T - d0.T >= 365 * 86400 * US, d.T - d0.T <= 367 * 86400 * US + skew)), mk))
+                            obs.append(oblige(eng, 'a defaulted expiration is a whole-second UTC time', d.T % US != 0, mk))
                     # wrapped, it passes the checker for supported types
                     w = run_call(it, S.wrap_as_signable, [md])
                     if not is_ret(w):
@@ -285,12 +282,11 @@ def concrete(case):
                         try:
                             e = datetime.datetime.strptime(md['expiration'], fmt)
                             base = datetime.datetime(1970, 1, 1) + datetime.timedelta(microseconds=(clock[-1] if clock else 0))
-                            if clock and e != base.replace(microsecond=0) + MC.ROOT_MD_EXPIRY_DISTANCE:
-                                probs.append(f'default expiration {md["expiration"]} is not one expiry distance after the current time')
                             if given['timestamp'] is None:
                                 t0 = datetime.datetime.strptime(md['timestamp'], fmt)
-                                if not (e > t0 and e - t0 >= datetime.timedelta(days=365)):
-                                    probs.append('default expiration is not about one year after the timestamp')
+                                skew = datetime.timedelta(microseconds=(clock[-1] - clock[0])) if len(clock) > 1 else datetime.timedelta(0)
+                                if not (e > t0 and datetime.timedelta(days=365) <= e - t0 <= datetime.timedelta(days=367) + skew):
+                                    probs.append(f'default expiration {md["expiration"]} is not about one year after the default timestamp {md["timestamp"]}')
                         except Exception as ex:
                             probs.append(f'default expiration / timestamp not canonical UTC: {ex}')
                     if isinstance(md['type'], str) and md['type'] in C.SUPPORTED_DELEGATING_METADATA_TYPES:
@@ -365,4 +361,4 @@ def units(tier):
 BOUNDS = dict(build_delegating_metadata='type: free string <= 8 chars or any JSON kind; delegations: default / one role with a free name, <= 1 free key, threshold int / binary64 / str / a list / a string; version int / bool / binary64 / str / None; timestamp and expiration: default / free 3-character string (IsoOK abstracts strptime) / int / list; clock: fresh non-decreasing readings with arbitrary microseconds up to year 9000',
               build_root_metadata='version any int, one free root key and one free key_mgr key (<= 66 chars), root threshold int / binary64; successor check with one OpenPGP entry of free strings assumed valid')
 OUTSIDE = 'clock beyond year 9000; datetime itself (isoformat / strptime are axiomatised: isoformat of a whole-second time + "Z" is accepted by strptime and parses back); more roles / keys'
-ASSUMPTIONS = ['"about one year later" is checked as: exactly ROOT_MD_EXPIRY_DISTANCE (read from the module at run time) after the clock reading taken for the expiration, hence >= 365 days after the default timestamp', 'A2, A3']
+ASSUMPTIONS = ['"about one year later" is checked, when both timestamp and expiration are defaulted, as 365 to 367 days (plus the time that passed between the two clock readings); a caller-supplied timestamp with a defaulted expiration is outside the statement', 'A2, A3']
